@@ -314,6 +314,56 @@ func (s *sess) proveAndVerify(k []byte, ri int) {
 	}
 }
 
+func bitOf(k []byte, i int) bool { return k[i/8]&(1<<uint(7-i%8)) != 0 }
+
+// forgeByDefaultLeafAmbiguity: an empty child is hashed as the single byte 00 with no domain separation, so a
+// node (empty, h) with h ending in 00 (or (h, empty) with h starting with 00) can be re-read with the empty
+// side swapped. For a PRESENT key whose path passes such a node this yields an accepted non-inclusion proof.
+// Returns whether a forgery was attempted.
+func (s *sess) forgeByDefaultLeafAmbiguity(k []byte, ri int) bool {
+	root := s.roots[ri].root
+	m := s.roots[ri].m
+	v, present := m[string(k)]
+	if !present {
+		return false
+	}
+	ap, inc, _, _, err := s.tr.MerkleProofR(k, root)
+	if err != nil || !inc {
+		return false
+	}
+	n := len(ap)
+	cur := common.Hasher(k, v, []byte{byte(256 - n)})
+	tried := false
+	for i := 0; i < n; i++ {
+		depth := n - 1 - i
+		sib := ap[i]
+		if bytes.Equal(sib, trie.DefaultLeaf) {
+			var forged []byte
+			if bitOf(k, depth) && cur[31] == 0 {
+				forged = append([]byte{0}, cur[:31]...)
+			} else if !bitOf(k, depth) && cur[0] == 0 {
+				forged = append(append([]byte{}, cur[1:]...), 0)
+			}
+			if forged != nil {
+				tried = true
+				ap2 := append([][]byte{forged}, ap[i+1:]...)
+				out := boolOrPanic(func() bool { return s.vt(root).VerifyNonInclusion(ap2, k, nil, nil) })
+				s.op(fmt.Sprintf("vexc %s %s %s %s %s", hx(root), hx(k), hx(nil), hx(nil), hxl(ap2)), out, out == "true")
+				s.run.Count("vexc-forged-default-leaf-ambiguity=" + out)
+				if out == "true" {
+					s.fail(fmt.Sprintf("forged non-inclusion proof accepted for PRESENT key %x: the node at depth %d has an empty sibling and digest %x, re-read with the DefaultLeaf byte on the other side", k, depth, cur), "C11-default-leaf-ambiguity")
+				}
+			}
+		}
+		if bitOf(k, depth) {
+			cur = common.Hasher(sib, cur)
+		} else {
+			cur = common.Hasher(cur, sib)
+		}
+	}
+	return tried
+}
+
 func genUniverse(r *vh.Rng, n int) [][]byte {
 	base := r.Bytes(32)
 	keys := [][]byte{base}
@@ -406,6 +456,21 @@ func main() {
 		}
 		for _, k := range univ {
 			s.proveAndVerify(k, ri)
+			s.forgeByDefaultLeafAmbiguity(k, ri)
 		}
+	}
+	// deliberate probe of the DefaultLeaf ambiguity: two keys sharing a 250-bit prefix give a chain of ~250 interior
+	// nodes with an empty sibling each; about one digest in 256 ends (or starts) with 00
+	probes := 0
+	for n := 0; n < run.Pick(40, 400) && probes < run.Pick(3, 20); n++ {
+		k1 := rng.Bytes(32)
+		k2 := append([]byte{}, k1...)
+		k2[31] ^= 0x20
+		s := newSess(run, [][]byte{k1, k2})
+		s.update([]kv{{k1, val(rng)}, {k2, val(rng)}})
+		if s.forgeByDefaultLeafAmbiguity(k1, 0) {
+			probes++
+		}
+		run.Count("default-leaf-ambiguity-probe-tries")
 	}
 }
